@@ -1,12 +1,13 @@
 use super::*;
 
-pub(super) fn get_first_sets(rules: &[Rule]) -> HashMap<String, FirstSet> {
-    let builder = FirstSetMapBuilder { rules };
+pub(super) fn get_first_sets(rules: &[Rule], file: &File) -> HashMap<String, FirstSet> {
+    let builder = FirstSetMapBuilder { rules, file };
     builder.get_first_sets()
 }
 
 struct FirstSetMapBuilder<'a> {
     rules: &'a [Rule<'a>],
+    file: &'a File,
 }
 
 impl FirstSetMapBuilder<'_> {
@@ -35,10 +36,13 @@ impl FirstSetMapBuilder<'_> {
         out
     }
 
+    /// Every declared nonterminal gets an entry,
+    /// including enums with zero variants (which have no rules).
     fn get_nonterminal_names(&self) -> Oset<&str> {
-        self.rules
+        self.file
+            .nonterminals
             .iter()
-            .map(|rule| rule.constructor_name.type_name())
+            .map(|nonterminal| nonterminal.name())
             .collect()
     }
 
